@@ -272,7 +272,18 @@ func c12TTests(c *Ctx, p *Prog) {
 			okD, dD := ufEqual(res.Args[3], sp.dof, sp.pts, sp.leaf)
 			c.Check(okD, "C12/R2", sp.name+":dof", site, "degrees of freedom match the textbook formula", "degrees of freedom: "+dD)
 		}
-		c.Check(nErr >= sp.guards && nOK >= 1, "C12/R1", sp.name+":error-returns", site, fmt.Sprintf("%d error paths, %d result paths", nErr, nOK), fmt.Sprintf("%s has %d error paths where %d guards are documented", sp.name, nErr, sp.guards))
+		kinds := map[string]bool{}
+		for _, b := range fn.Blocks {
+			if ret, ok := b.Instrs[len(b.Instrs)-1].(*ssa.Return); ok {
+				if la := loadAddr(retLast(ret)); la != nil {
+					if g, ok := la.(*ssa.Global); ok {
+						kinds[g.Name()] = true
+					}
+				}
+			}
+		}
+		c.Check(kinds["ErrSampleSize"] && kinds["ErrZeroVariance"] && nOK >= 1, "C12/R1", sp.name+":error-returns", site, fmt.Sprintf("%d error paths (%v), %d result paths", nErr, keys(kinds), nOK),
+			fmt.Sprintf("%s does not report undersized and zero-variance inputs as errors (returns %v): it divides by zero and reports NaN/Inf statistics instead", sp.name, keys(kinds)))
 	}
 	// paired: structural guards + formula after the difference loop
 	if fn := p.Fn("internal/stats", "PairedTTest"); fn != nil {
